@@ -11,9 +11,12 @@ CONSTANT LogFile
 Log  == ndJsonDeserialize(LogFile)
 NLog == Len(Log)
 
+(* cur = 0: root; cur = -k: bucket k (so that TLC's workers share the nodes); cur = i > 0: log node i *)
 VARIABLE cur
-Init == cur \in 1..NLog
-Next == UNCHANGED cur
+NB == 64
+Init == cur = 0
+Next == \/ cur = 0 /\ cur' \in {-k : k \in 1..NB}
+        \/ cur < 0 /\ cur' \in {i \in 1..NLog : i % NB = (-cur) - 1}
 Spec == Init /\ [][Next]_cur
 
 S(j) == [h |-> j.h, t |-> j.t, bal |-> Dense(j.bal), pairs |-> Range(j.pairs), pools |-> Range(j.pools),
@@ -22,7 +25,8 @@ S(j) == [h |-> j.h, t |-> j.t, bal |-> Dense(j.bal), pairs |-> Range(j.pairs), p
 Nd(i)   == Log[i]
 IsStep(i) == Nd(i).parent > 0
 Post(i) == S(Nd(i).st)
-Pre(i)  == S(Log[Nd(i).parent].st)
+Pre(i)  == IF IsStep(i) THEN S(Log[Nd(i).parent].st) ELSE S(Nd(i).st)
+PreJ(i) == IF IsStep(i) THEN Log[Nd(i).parent].st ELSE Nd(i).st
 
 (* ---------------------------------------------------------------------------------------------------- *)
 (* environment choices read off the recorded step                                                        *)
@@ -105,8 +109,8 @@ EndCands(s, s2, app) ==                                       \* possible result
   ELSE LET r == EndApp(s, app, EnvOf(s, s2, app)) IN
        IF r.ok THEN (IF EscrowShort(s, app) THEN {r.st, s} ELSE {r.st}) ELSE {s}
 
-Conf(i) ==
-  LET nd == Nd(i) a == nd.args ok == nd.res.ok s == Pre(i) s2 == Post(i) IN
+Conf(nd, s, s2) ==
+  LET a == nd.args ok == nd.res.ok IN
   CASE nd.a = "Init"        -> TRUE
     [] nd.a = "CreatePair"  -> Same(CreatePair(s, a), ok, s2)
     [] nd.a = "LimitOrder"  -> Same(LimitOrder(s, a), ok, s2)
@@ -130,94 +134,91 @@ Conf(i) ==
     [] nd.a = "BeginBlock"  -> ok /\ StEq(BeginBlock(s, a.dt), s2)
     [] OTHER -> FALSE
 
-ConfSdk(i) == LET s2 == Post(i) v == Nd(i).st.inv IN
+ConfSdk(nd, s2) == LET v == nd.st.inv IN
   /\ (v.dep \/ v.pc => ~C04GlobalEscrow(s2)) /\ (v.rem => ~C04PairEscrow(s2)) /\ (v.status => ~C04ZeroDisabled(s2))
-ConfResidue(i) == LET nd == Nd(i) IN
-  IF ~IsStep(i) THEN \A x \in Range(nd.st.xs) : x.xb = 0 /\ x.xq = 0
-  ELSE LET s == Pre(i) s2 == Post(i) pj == Log[nd.parent].st IN
-       \A p \in s2.pairs :
+ConfResidue(nd, pj, s, s2) ==
+  IF nd.parent = 0 THEN \A x \in Range(nd.st.xs) : x.xb = 0 /\ x.xq = 0
+  ELSE \A p \in s2.pairs :
           LET x1 == XsOf(pj, p.app, p.id) x2 == XsOf(nd.st, p.app, p.id) IN
           IF nd.a = "EndBlock" /\ HasPair(s, p.app, p.id)
           THEN x2.xb - x1.xb = ResidueB(s, s2, p) /\ x2.xq - x1.xq = ResidueQ(s, s2, p)
           ELSE x2 = x1
 
 (* ---------------------------------------------------------------------------------------------------- *)
-(* C04                                                                                                   *)
-C04Supply(i) == IsStep(i) => C04SupplyStep(Pre(i), Post(i))
-
-(* C07                                                                                                   *)
+(* C07 on recorded steps                                                                                 *)
 (* the coins a user's orders took / returned in this step are exactly the change of the user's balance   *)
 (* (users who also had pool / request activity in the step are judged by Conf only)                      *)
-ReqTouched(s, s2, u) == \E r \in s2.reqs : r.owner = u /\ r \notin s.reqs
-PoolMsg(nd, u) == nd.a \in {"CreatePool", "CreateRangedPool", "DepositAndFarm", "UnfarmAndWithdraw", "Deposit"} /\ nd.args.u = u
-LedgerUsers(i) == LET nd == Nd(i) s == Pre(i) s2 == Post(i) IN {u \in Users : ~ReqTouched(s, s2, u) /\ ~PoolMsg(nd, u)}
-C07Ledger(i) ==
-  IsStep(i) =>
-    LET s == Pre(i) s2 == Post(i) IN
-    \A u \in LedgerUsers(i) : \A d \in {"uaa", "ubb", "ucc"} :
-       s2.bal[u][d] - s.bal[u][d] = C07OwnerFlow(s, s2, u, d)
-CancelAnte(i) == LET nd == Nd(i) a == nd.args s == Pre(i) IN
+LedgerUsers(nd, s, s2) == {u \in Users : ~ReqTouched(s, s2, u) /\ ~PoolAct(nd.a, nd.args, u)}
+C07Ledger(nd, s, s2) ==
+  \A u \in LedgerUsers(nd, s, s2) : \A d \in {"uaa", "ubb", "ucc"} :
+     s2.bal[u][d] - s.bal[u][d] = C07OwnerFlow(s, s2, u, d)
+CancelAnte(nd, s) == LET a == nd.args IN
   /\ nd.a = "CancelOrder" /\ a.app \in AppIds /\ HasOrder(s, a.app, a.pair, a.id)
   /\ LET o == OrderOf(s, a.app, a.pair, a.id) IN Live(o) /\ o.owner = a.u /\ o.batch # PairOf(s, a.app, a.pair).batch
-C07Cancellable(i) == IsStep(i) /\ CancelAnte(i) =>
-  LET nd == Nd(i) a == nd.args s2 == Post(i) IN
-  nd.res.ok /\ HasOrder(s2, a.app, a.pair, a.id) /\ OrderOf(s2, a.app, a.pair, a.id).status = "X"
-EarlierMM(i) == LET nd == Nd(i) a == nd.args s == Pre(i) IN
+C07Cancellable(nd, s, s2) == CancelAnte(nd, s) =>
+  LET a == nd.args IN nd.res.ok /\ HasOrder(s2, a.app, a.pair, a.id) /\ OrderOf(s2, a.app, a.pair, a.id).status = "X"
+EarlierMM(nd, s) == LET a == nd.args IN
   IF nd.a \in {"CancelMM", "MMOrder"} /\ nd.res.ok
   THEN {o \in s.orders : o.app = a.app /\ o.pair = a.pair /\ o.owner = a.u /\ o.typ = "MM" /\ Live(o)} ELSE {}
-C07MMReplace(i) == IsStep(i) =>
-  LET s2 == Post(i) IN \A o \in EarlierMM(i) : HasOrder(s2, o.app, o.pair, o.id) /\ OrderOf(s2, o.app, o.pair, o.id).status = "X"
+C07MMReplace(nd, s, s2) ==
+  \A o \in EarlierMM(nd, s) : HasOrder(s2, o.app, o.pair, o.id) /\ OrderOf(s2, o.app, o.pair, o.id).status = "X"
 (* the escrow covers every live claim once the recorded matching residue (amm family) is accounted for: *)
 (* any OTHER leak out of a pair escrow violates this even in runs that hit the known non-conserving match *)
-C07CoversNet(i) == LET nd == Nd(i) s2 == Post(i) IN
+C07CoversNet(nd, s2) ==
   \A p \in s2.pairs : LET x == XsOf(nd.st, p.app, p.id) e == EscT[p.app][p.id] IN
      s2.bal[e][p.base] + x.xb >= OwedOf(s2, p, p.base) /\ s2.bal[e][p.quote] + x.xq >= OwedOf(s2, p, p.quote)
 
 Formulas == <<"Conf_Step", "Conf_SdkAgree", "Conf_Residue",
               "C04_GlobalEscrow", "C04_PairEscrow", "C04_FarmBacked", "C04_ZeroSupplyDisabled", "C04_SupplyOnlyByPoolOps",
               "C07_OwnerLedger", "C07_Cancellable", "C07_MMReplace", "C07_EscrowCovers", "C07_EscrowCoversNet", "C07_NothingRemains">>
-Holds(f, i) ==
-  CASE f = "Conf_Step" -> (IsStep(i) => Conf(i))
-    [] f = "Conf_SdkAgree" -> ConfSdk(i)
-    [] f = "Conf_Residue" -> ConfResidue(i)
-    [] f = "C04_GlobalEscrow" -> C04GlobalEscrow(Post(i))
-    [] f = "C04_PairEscrow" -> C04PairEscrow(Post(i))
-    [] f = "C04_FarmBacked" -> C04FarmBacked(Post(i))
-    [] f = "C04_ZeroSupplyDisabled" -> C04ZeroDisabled(Post(i))
-    [] f = "C04_SupplyOnlyByPoolOps" -> C04Supply(i)
-    [] f = "C07_OwnerLedger" -> C07Ledger(i)
-    [] f = "C07_Cancellable" -> C07Cancellable(i)
-    [] f = "C07_MMReplace" -> C07MMReplace(i)
-    [] f = "C07_EscrowCovers" -> C07EscrowCovers(Post(i))
-    [] f = "C07_EscrowCoversNet" -> C07CoversNet(i)
-    [] f = "C07_NothingRemains" -> C07NothingRemains(Post(i))
+Holds(f, nd, pj, s, s2) ==
+  LET step == nd.parent > 0 IN
+  CASE f = "Conf_Step" -> (step => Conf(nd, s, s2))
+    [] f = "Conf_SdkAgree" -> ConfSdk(nd, s2)
+    [] f = "Conf_Residue" -> ConfResidue(nd, pj, s, s2)
+    [] f = "C04_GlobalEscrow" -> C04GlobalEscrow(s2)
+    [] f = "C04_PairEscrow" -> C04PairEscrow(s2)
+    [] f = "C04_FarmBacked" -> C04FarmBacked(s2)
+    [] f = "C04_ZeroSupplyDisabled" -> C04ZeroDisabled(s2)
+    [] f = "C04_SupplyOnlyByPoolOps" -> (step => C04SupplyStep(s, s2))
+    [] f = "C07_OwnerLedger" -> (step => C07Ledger(nd, s, s2))
+    [] f = "C07_Cancellable" -> (step => C07Cancellable(nd, s, s2))
+    [] f = "C07_MMReplace" -> (step => C07MMReplace(nd, s, s2))
+    [] f = "C07_EscrowCovers" -> C07EscrowCovers(s2)
+    [] f = "C07_EscrowCoversNet" -> C07CoversNet(nd, s2)
+    [] f = "C07_NothingRemains" -> C07NothingRemains(s2)
 
-Judge == \A k \in 1..Len(Formulas) : Holds(Formulas[k], cur) \/ PrintT(<<"FAIL", Formulas[k], cur>>)
+(* The judge never stops TLC: every failing (formula, node) is printed and collected by bin/check. *)
+Judge == cur > 0 =>
+  LET nd == Nd(cur) pj == PreJ(cur) s == Pre(cur) s2 == Post(cur) IN
+  \A k \in 1..Len(Formulas) : Holds(Formulas[k], nd, pj, s, s2) \/ PrintT(<<"FAIL", Formulas[k], cur>>)
 
-(* antecedent counters (vacuity control) *)
-Count(P(_)) == Cardinality({i \in 1..NLog : P(i)})
-Ended(i, st) == IsStep(i) /\ \E o \in Post(i).orders : o.status = st /\ \E q \in Pre(i).orders : q.app = o.app /\ q.pair = o.pair /\ q.id = o.id /\ Live(q)
-Stats == PrintT(<<"STATS", [
-   nodes          |-> NLog,
-   steps          |-> Count(LAMBDA i : IsStep(i)),
-   okSteps        |-> Count(LAMBDA i : IsStep(i) /\ Nd(i).res.ok),
-   placed         |-> Count(LAMBDA i : IsStep(i) /\ Nd(i).a \in {"LimitOrder", "MarketOrder", "MMOrder"} /\ Nd(i).res.ok),
-   cancelChecked  |-> Count(LAMBDA i : IsStep(i) /\ CancelAnte(i)),
-   mmReplaceChecked |-> Count(LAMBDA i : IsStep(i) /\ EarlierMM(i) # {}),
-   mmIdsDiffer    |-> Count(LAMBDA i : IsStep(i) /\ EarlierMM(i) # {} /\ Nd(i).args.app # Nd(i).args.pair),
-   completed      |-> Count(LAMBDA i : Ended(i, "C")),
-   expired        |-> Count(LAMBDA i : Ended(i, "E")),
-   canceled       |-> Count(LAMBDA i : Ended(i, "X")),
-   partialEnd     |-> Count(LAMBDA i : IsStep(i) /\ \E o \in Post(i).orders : ~Live(o) /\ o.rem > 0 /\ o.rem < o.offer
-                                         /\ \E q \in Pre(i).orders : q.app = o.app /\ q.pair = o.pair /\ q.id = o.id /\ Live(q)),
-   filledSteps    |-> Count(LAMBDA i : IsStep(i) /\ Nd(i).a = "EndBlock" /\ \E o \in Post(i).orders : \E q \in Pre(i).orders :
-                                         q.app = o.app /\ q.pair = o.pair /\ q.id = o.id /\ q.recv < o.recv),
-   emptiedBooks   |-> Count(LAMBDA i : IsStep(i) /\ \E p \in Post(i).pairs : LiveOf(Post(i), p) = {} /\ HasPair(Pre(i), p.app, p.id) /\ LiveOf(Pre(i), p) # {}),
-   farmed         |-> Count(LAMBDA i : \E pl \in Post(i).pools : Farmed(Post(i), pl) > 0),
-   activeFarm     |-> Count(LAMBDA i : Post(i).af # {}),
-   supplyChanged  |-> Count(LAMBDA i : IsStep(i) /\ \E pl \in Post(i).pools : HasPool(Pre(i), pl.app, pl.id) /\ PoolOf(Pre(i), pl.app, pl.id).ps # pl.ps),
-   reqPending     |-> Count(LAMBDA i : Pending(Post(i)) # {}),
-   poolsDisabled  |-> Count(LAMBDA i : \E pl \in Post(i).pools : pl.disabled),
-   residueSteps   |-> Count(LAMBDA i : Nd(i).st.tainted) ]>>)
-AllSeen == Stats /\ TLCGet("stats").distinct = NLog
+(* antecedent counters (vacuity control): one record of flags per node, computed once *)
+Was(s, o) == \E q \in s.orders : q.app = o.app /\ q.pair = o.pair /\ q.id = o.id /\ Live(q)
+Flags(i) ==
+  LET nd == Nd(i) s == Pre(i) s2 == Post(i) step == nd.parent > 0 IN
+  [ step |-> step, ok |-> step /\ nd.res.ok,
+    placed |-> step /\ nd.a \in {"LimitOrder", "MarketOrder", "MMOrder"} /\ nd.res.ok,
+    cancel |-> step /\ CancelAnte(nd, s),
+    mm |-> step /\ EarlierMM(nd, s) # {},
+    mmDiff |-> step /\ EarlierMM(nd, s) # {} /\ nd.args.app # nd.args.pair,
+    completed |-> step /\ \E o \in s2.orders : o.status = "C" /\ Was(s, o),
+    expired |-> step /\ \E o \in s2.orders : o.status = "E" /\ Was(s, o),
+    canceled |-> step /\ \E o \in s2.orders : o.status = "X" /\ Was(s, o),
+    partialEnd |-> step /\ \E o \in s2.orders : ~Live(o) /\ o.rem > 0 /\ o.rem < o.offer /\ o.typ # "MM" /\ Was(s, o),
+    filled |-> step /\ nd.a = "EndBlock" /\ \E o \in s2.orders : \E q \in s.orders : q.app = o.app /\ q.pair = o.pair /\ q.id = o.id /\ q.recv < o.recv,
+    emptied |-> step /\ \E p \in s2.pairs : LiveOf(s2, p) = {} /\ HasPair(s, p.app, p.id) /\ LiveOf(s, p) # {},
+    farmed |-> \E pl \in s2.pools : Farmed(s2, pl) > 0,
+    activeFarm |-> s2.af # {},
+    supply |-> step /\ \E pl \in s2.pools : HasPool(s, pl.app, pl.id) /\ PoolOf(s, pl.app, pl.id).ps # pl.ps,
+    pending |-> Pending(s2) # {},
+    disabled |-> \E pl \in s2.pools : pl.disabled,
+    ledger |-> step /\ \E u \in LedgerUsers(nd, s, s2) : \E d \in {"uaa", "ubb", "ucc"} : C07OwnerFlow(s, s2, u, d) # 0,
+    residue |-> nd.st.tainted ]
+FL == [i \in 1..NLog |-> Flags(i)]
+Cnt(f) == Cardinality({i \in 1..NLog : FL[i][f]})
+Stats == PrintT(<<"STATS", [k \in {"step", "ok", "placed", "cancel", "mm", "mmDiff", "completed", "expired", "canceled", "partialEnd", "filled",
+                                   "emptied", "farmed", "activeFarm", "supply", "pending", "disabled", "ledger", "residue"} |-> Cnt(k)]
+                            @@ [nodes |-> NLog]>>)
+AllSeen == Stats /\ TLCGet("stats").distinct = NLog + NB + 1
 =============================================================================
